@@ -1,4 +1,4 @@
-use std::{collections::BTreeMap, mem};
+use std::collections::BTreeMap;
 
 use log::debug;
 use smallvec::SmallVec;
@@ -220,12 +220,30 @@ impl Layout {
         !self.pending_holes.is_empty()
     }
 
+    /// Starts of the pending holes that exist right now.
+    pub fn pending_hole_starts(&self) -> Vec<usize> {
+        self.pending_holes.keys().copied().collect()
+    }
+
     pub fn promote_pending_holes(&mut self, name: &str) {
-        let count = self.pending_holes.len();
+        let all = self.pending_hole_starts();
+        self.promote_pending_holes_among(name, &all);
+    }
+
+    /// Promotes only the pending holes whose start is in `starts`: holes that appeared
+    /// later (a concurrent relocation or removal) are not covered by the caller's sync.
+    pub fn promote_pending_holes_among(&mut self, name: &str, starts: &[usize]) {
+        let mut promoted = BTreeMap::new();
+        for start in starts {
+            if let Some(size) = self.pending_holes.remove(start) {
+                promoted.insert(*start, size);
+            }
+        }
+        let count = promoted.len();
         if count > 0 {
             debug!("{}: promoted {} pending holes", name, count);
         }
-        for (start, mut size) in mem::take(&mut self.pending_holes) {
+        for (start, mut size) in promoted {
             let mut final_start = start;
 
             // Coalesce with adjacent real hole BEFORE
